@@ -377,3 +377,90 @@ func VH_C05_spawn() {
 		vrtReach("prelaunch-failed")
 	}
 }
+
+// adopt swaps a recording mailbox into a context that was created by the real
+// ActorOf (from inside a handler); what its real mailbox already holds (the
+// OnLaunch) is delivered by that mailbox's own consumer goroutine at the next
+// yield.
+func (w *vhWorld) adopt(path string) *Context {
+	v, ok := w.sys.actorContexts.Load(path)
+	vrtAssert(ok, "adopt-registered")
+	ctx := v.(*Context)
+	box := &vhBox{name: path}
+	ctx.mailbox = box
+	ctx.ref.cache.Store(nil)
+	w.boxes[ctx] = box
+	w.order = append(w.order, ctx)
+	return ctx
+}
+
+// VH_C06_respawn_in_handler: a child terminates; its parent, while handling
+// that child's OnKilled, spawns a new child under the SAME name through the
+// real ActorOf; then the parent is killed. The new child belongs to the
+// subtree: it is terminated with the parent (children first), reported once,
+// its path released.
+func VH_C06_respawn_in_handler() {
+	vhLog = nil
+	w := vhNewWorld()
+	rec := w.spawn(w.root, "rec", &vhActor{name: "rec"})
+	es := w.sys.eventStream.(*eventStream)
+	es.Subscribe(rec, ves.ActorKilledEvent{})
+	pa := vhLogged("p")
+	p := w.spawn(w.root, "p", pa)
+	c := w.spawn(p, "c", vhLogged("c"))
+	other := w.spawn(p, "d", vhLogged("d"))
+	c2a := vhLogged("c2")
+	var c2 *Context
+	respawnOn := vrtChoose(2) // 0: when c dies, 1: when d dies (a different name than the one reused)
+	logIt := pa.onMsg
+	pa.onMsg = func(ctx vivid.ActorContext, m vivid.Message) {
+		logIt(ctx, m)
+		k, ok := m.(*vivid.OnKilled)
+		if !ok || k.Ref.Equals(ctx.Ref()) || c2 != nil {
+			return
+		}
+		if (respawnOn == 0 && k.Ref.Equals(c.ref)) || (respawnOn == 1 && k.Ref.Equals(other.ref) && c.state == killed) {
+			_, err := ctx.ActorOf(c2a, vivid.WithActorName("c"))
+			vrtAssert(err == nil, "name-of-terminated-child-reusable-from-the-onkilled-handler")
+			c2 = w.adopt(c.ref.GetPath())
+		}
+	}
+	w.root.Kill(c.ref, vrtBool(), "first")
+	w.run(200, "kill-terminates")
+	if respawnOn == 1 {
+		w.root.Kill(other.ref, vrtBool(), "second")
+		w.run(200, "kill-terminates")
+	}
+	vrtYield()
+	w.run(200, "kill-terminates")
+	vrtAssert(c.state == killed, "target-terminated")
+	vrtAssert(c2 != nil && c2.state == running, "respawned-child-runs")
+	_, listed := p.children[c2.ref.GetPath()]
+	vrtAssert(listed, "respawned-child-is-a-child-of-its-parent")
+	vrtAssert(vhIndexOf("c2", func(m vivid.Message) bool { _, ok := m.(*vivid.OnLaunch); return ok }) >= 0, "respawned-child-launched")
+
+	poison := vrtBool()
+	w.root.Kill(p.ref, poison, "parent")
+	w.run(400, "kill-terminates")
+	vrtYield()
+	w.run(400, "kill-terminates")
+	vrtAssert(p.state == killed, "target-terminated")
+	vrtAssert(c2.state == killed, "descendants-terminated")
+	if respawnOn == 0 {
+		vrtAssert(other.state == killed, "descendants-terminated")
+	}
+	own := vhIndexOf("p", vhIsOwnKilled(p.ref))
+	ci := vhIndexOf("c2", vhIsOwnKilled(c2.ref))
+	vrtAssert(own >= 0 && ci >= 0 && ci < own, "children-terminate-before-parent")
+	_, err := w.sys.FindActor(c2.ref.String())
+	vrtAssert(err != nil, "path-released")
+	_, err = w.sys.FindActor(p.ref.String())
+	vrtAssert(err != nil, "path-released")
+	nEv := vhCountEnv(w.boxes[rec], func(e vivid.Envelop) bool {
+		ev, ok := e.Message().(ves.ActorKilledEvent)
+		return ok && ev.ActorRef.Equals(c2.ref)
+	})
+	// the first incarnation and the respawned one have the same path: two events in total
+	vrtAssert(nEv == 2, "one-killed-event")
+	vrtReach("respawned-and-killed")
+}
